@@ -16,7 +16,7 @@ from ..core.runner import Result
 from ..core import histworld as H
 from ..core.termio import INT, REAL, BOOL, mk_type
 
-ALL = ["F%d" % i for i in range(1, 11)]
+ALL = ["F%d" % i for i in range(1, 14)]
 
 
 class Injected(Exception):
@@ -58,6 +58,7 @@ SMT_TEXTS = {
     "s1": "(declare-fun a () Bool) (declare-fun x () Int) (define-fun g ((z Int)) Int (+ z 1)) "
           "(assert (let ((w (g x))) (forall ((q Int)) (=> a (< q w)))))",
     "s2": "(declare-fun u () (_ BitVec 2)) (push 1) (assert (bvult u (bvadd u #b01))) (pop 1) (assert (= u #b10))",
+    "s3": "(set-logic QF_LRA) (declare-fun r () Real) (define-fun k () Real 2) (assert (let ((w (+ r k))) (> w 3)))",
 }
 HR_TEXTS = {"h1": "(a & (x + 1 <= y)) | (! b)", "h2": "(x * 2 = y) -> (a <-> b)"}
 
